@@ -50,6 +50,33 @@ class AnalysisError(Exception):
 # ---------------------------------------------------------------------------
 
 
+def _canonical_index_parameter(tree: ast.Module) -> None:
+    """The element-evaluation closures of the package have the signature `(*index)`, and the rules speak of `index`.  A closure
+    or lambda nested in a function whose only parameter is a vararg with another name gets it renamed to `index` in the loaded
+    tree (positions are kept), unless that would capture a name: then the tree is left alone and the rules decide."""
+    for fn in ast.walk(tree):
+        if not isinstance(fn, (ast.FunctionDef, ast.Lambda)):
+            continue
+        a = fn.args
+        if a.vararg is None or a.args or a.posonlyargs or a.kwonlyargs or a.kwarg or a.vararg.arg in ("index", "_"):
+            continue
+        p = getattr(fn, "_parent", None)
+        while p is not None and not isinstance(p, (ast.FunctionDef, ast.Lambda)):
+            p = getattr(p, "_parent", None)
+        if p is None:
+            continue  # module-level or method-level functions keep their signature
+        body = fn.body if isinstance(fn.body, list) else [fn.body]
+        names = {n.id for b in body for n in ast.walk(b) if isinstance(n, ast.Name)}
+        if "index" in names:
+            continue
+        old = a.vararg.arg
+        a.vararg.arg = "index"
+        for b in body:
+            for n in ast.walk(b):
+                if isinstance(n, ast.Name) and n.id == old:
+                    n.id = "index"
+
+
 class Repo:
     """Parsed source of the package under ``root/pymablock`` (tests excluded)."""
 
@@ -73,6 +100,7 @@ class Repo:
             for node in ast.walk(tree):
                 for child in ast.iter_child_nodes(node):
                     child._parent = node  # type: ignore[attr-defined]
+            _canonical_index_parameter(tree)
             self.trees[name] = tree
         # every other .py in the package (not tests) is parsed too so that
         # who-may-write rules see the whole package
